@@ -557,6 +557,15 @@ let exec (s : t) (verbose : bool) (f : string array) (obs : string option) : str
     let ((d, r), evs) = batch_get (get_db s) (get_batch s) (tok_bytes f.(2)) in
     s.db <- Some d;
     (match r with Inl v -> "ok " ^ obs_bytes v | Inr e -> "err " ^ eerr_name e) ^ events_str evs
+  | "commitfail" ->
+    (* a Commit whose write the operating system refused: it reports the error, the batch is finished and nothing
+       of it happened (the harness injects the fault only when nothing of the batch was flushed before and no
+       rotation precedes the write; otherwise the operation is skipped) *)
+    (match obs with
+     | Some o when String.length o >= 4 && String.sub o 0 4 = "skip" -> "skip"
+     | _ ->
+       let b = get_batch s in
+       s.batch <- Some { b with b_staged = []; b_cached = n_of_int 0; b_committed = true }; "err io")
   | "commit" ->
     let (((d, b), e), evs) = batch_commit (get_db s) (get_batch s) in
     s.db <- Some d; s.batch <- Some b;
